@@ -304,6 +304,32 @@ func sortedKeys(m map[string]bool) []string {
 
 // ---- C: real-clock lifetimes on the backends that cannot be fast-forwarded (ttl 300 ms, sleeps of 110 / 400 ms)
 
+// C2: wall-clock lifetimes on EVERY backend (`w:`): the records' ExpiresAt is stamped from the wall clock, so a session
+// that outlives the lifetime on heartbeats and then authenticates again on the same connection (handleHandshake's
+// existing-connection path) must be findable for a full lifetime from that handshake
+func genWall(tier string, emit func(string)) {
+	tpl := []string{
+		// re-handshake on the registered connection after more than one lifetime, then kept alive again
+		"o:0.7.0 h:0.7.0 w:110 b:0.7.0 w:110 b:0.7.0 w:110 b:0.7.0 h:0.7.0 w:110 b:0.7.0 w:110 b:0.7.0 w:110",
+		// … within the first lifetime; and a refused / tunnel-type handshake in between changes nothing
+		"o:0.7.0 h:0.7.0 w:110 h:0.7.0 w:110 f:0.7.0 b:0.7.0 w:110 u:0.7.0 b:0.7.0 w:110 h:0.7.0 w:110 w:110",
+		// re-handshake on the old connection after the client moved and came back (same-node kick in between)
+		"o:0.7.0 h:0.7.0 o:1.7.0 w:110 b:0.7.0 w:110 b:0.7.0 w:110 h:1.7.0 b:1.7.0 w:110 b:1.7.0 w:110 b:1.7.0 w:110 h:1.7.0 w:110 e:0.7.0 w:110",
+	}
+	bes := []string{"mem", "red"}
+	if tier == "thorough" {
+		bes = []string{"mem", "red", "hyr", "hyl", "map", "byt"}
+	}
+	for _, be := range bes {
+		for i, t := range tpl {
+			if tier != "thorough" && i > 0 && be != "mem" {
+				continue
+			}
+			emit(header(be, 300, 2, []int{7}) + " " + t)
+		}
+	}
+}
+
 func genTimed(r *common.Rand, backends []string, perBackend int, emit func(string)) {
 	tpl := []string{
 		// kept alive by heartbeats across more than one lifetime, then left alone
@@ -368,5 +394,6 @@ func generate(r *common.Rand, tier string, emit func(string)) {
 		genRandom(r.Fork(), []string{"mem", "hyl", "map", "byt"}[i%4], false, emit)
 	}
 	genTimed(r, []string{"mem", "hyl", "map", "byt"}, nTimed, emit)
+	genWall(tier, emit)
 	genSched(tier, emit)
 }
